@@ -2,6 +2,7 @@
 package c17
 
 import (
+	"strconv"
 	"html/template"
 
 	plush "github.com/gobuffalo/plush/v5"
@@ -18,6 +19,7 @@ func init() {
 	vrt.Register("C17_nested_partials", NestedPartials)
 	vrt.Register("C17_shared_data_map", SharedDataMap)
 	vrt.Register("C17_content_of_in_scopes", ContentOfInScopes)
+	vrt.Register("C17_same_call_site_again", SameCallSiteAgain)
 }
 
 // bodies of partials / blocks; they read v (data), c (caller's variable) and xs
@@ -329,5 +331,42 @@ func ContentOfInScopes() {
 	vrt.Note("got", got)
 	vrt.Assert(err == nil, "contentOf / a block helper inside a loop or function renders")
 	vrt.Assert(got == want, "the composed form equals the inline form also for what follows it in the same scope")
+	vrt.Cover("done")
+}
+
+// ---- one textual helper call (partial, a block helper, contentOf) evaluated
+// more than once under different scopes - a stored block emitted twice with
+// other data, a user function called twice, an inner loop entered again by the
+// outer one: each evaluation renders in the scope it is made from, as the
+// inlined source does
+func SameCallSiteAgain() {
+	a, b, c, d := vrt.Int(), vrt.Int(), vrt.Int(), vrt.Int()
+	ctx := plush.NewContext()
+	ctx.Set("a", a)
+	ctx.Set("b", b)
+	ctx.Set("rows", [][]int{{a, b}, {c, d}})
+	ctx.Set("partialFeeder", func(name string) (string, error) { return "<%= v %>", nil })
+	ctx.Set("blk", func(help plush.HelperContext) (template.HTML, error) {
+		s, err := help.Block()
+		return template.HTML(s), err
+	})
+	A, B, C, D := strconv.Itoa(a), strconv.Itoa(b), strconv.Itoa(c), strconv.Itoa(d)
+	type cs struct{ in, want string }
+	cases := []cs{
+		{"<% contentFor(\"c\") { %>[<%= partial(\"cell\") %>]<% } %><%= contentOf(\"c\", {v: a}) %><%= contentOf(\"c\", {v: b}) %>", "[" + A + "][" + B + "]"},
+		{"<% contentFor(\"c\") { %>[<%= blk() { %><%= v %><% } %>]<% } %><%= contentOf(\"c\", {v: a}) %><%= contentOf(\"c\", {v: b}) %>", "[" + A + "][" + B + "]"},
+		{"<% let f = fn(v) { return partial(\"cell\") } %><%= f(a) %>|<%= f(b) %>|<%= f(a) %>", A + "|" + B + "|" + A},
+		{"<% let f = fn(v) { return blk() { %><%= v %><% } } %><%= f(a) %>|<%= f(b) %>", A + "|" + B},
+		{"<%= for (r) in rows { %><%= for (v) in r { %>[<%= partial(\"cell\") %>]<% } %>|<% } %>", "[" + A + "][" + B + "]|[" + C + "][" + D + "]|"},
+		{"<%= for (r) in rows { %><%= for (v) in r { %>[<%= blk() { %><%= v %><% } %>]<% } %>|<% } %>", "[" + A + "][" + B + "]|[" + C + "][" + D + "]|"},
+		{"<%= for (v) in rows[0] { %>[<%= partial(\"cell\") %>]<% } %><%= for (v) in rows[1] { %>(<%= partial(\"cell\") %>)<% } %>", "[" + A + "][" + B + "](" + C + ")(" + D + ")"},
+		{"<% contentFor(\"c\") { %><%= v %>,<% } %><% let g = fn(v) { return contentOf(\"c\", {v: v}) } %><%= g(a) %><%= g(b) %>", A + "," + B + ","},
+	}
+	k := cases[vrt.Choice(len(cases))]
+	vrt.Note("input", k.in)
+	got, err := plush.Render(k.in, ctx)
+	vrt.Note("got", got)
+	vrt.Assert(err == nil, "a helper call evaluated again in another scope renders")
+	vrt.Assert(got == k.want, "every evaluation of a helper call renders in the scope it is made from")
 	vrt.Cover("done")
 }
